@@ -22,7 +22,7 @@ from ser import rat
 from props import c06 as base
 
 LEAN_MODULE = "Optyx.Props.C07"
-EXTRA_MODULES = ["Optyx.Props.PinsC07", "Optyx.Props.SolveTie", "Optyx.Props.StateTie", "Optyx.Props.BuildTie"]   # transcription anchors (harness/source_pins.py)
+EXTRA_MODULES = ["Optyx.Props.PinsC07", "Optyx.Props.SolveTie", "Optyx.Props.StateTie", "Optyx.Props.BuildTie", "Optyx.Props.CompileEntryTie"]   # transcription anchors (harness/source_pins.py)
 THEOREMS = [
     "Optyx.Props.C07.lp_objective_value",
     "Optyx.Props.C07.scipy_objective_value",
@@ -41,6 +41,8 @@ THEOREMS = [
     "Optyx.Props.StateTie.edits_are_source",
     "Optyx.Props.BuildTie.compile_step",
     "Optyx.Props.BuildTie.compileVec_step",
+    "Optyx.Props.CompileEntryTie.compileExpression_eq",
+    "Optyx.Props.CompileEntryTie.param_run",
     "Optyx.Props.PinsC07.anchors",
 ]
 ASSUMPTIONS = [
